@@ -213,6 +213,14 @@ func genGR(seed uint64, tier, mode string) *Script {
 				add(Op{Kind: "up", Peer: 0, Arg: "rbit"})
 				annSome(g.rng(0, 2))
 			}
+			if g.p(25) {
+				// an UPDATE that names no route and carries one malformed attribute of the
+				// attribute-discard class: it changes nothing - in particular it is no End-of-RIB
+				for _, f := range fams {
+					add(Op{Kind: "emptybad", Family: f})
+				}
+				add(Op{Kind: "probe"})
+			}
 			order := []string{"ipv4-unicast"}
 			if len(fams) > 1 {
 				order = append(order, "ipv6-unicast")
@@ -497,6 +505,24 @@ func grOp(w *simWorld, actor int, op *Op) {
 		w.mu.Unlock()
 		if p.announce(r) {
 			st.routes[viewKey{fam, 0, op.Prefix}] = &grRoute{r: r}
+		}
+		grSettle()
+	case "emptybad":
+		if !p.isUp() {
+			return
+		}
+		fam := famByName(op.Family)
+		if !p.hasFamily(fam) {
+			return
+		}
+		// AGGREGATOR (optional transitive) with length 5: malformed, attribute discard (RFC 7606 7.7)
+		attrs := wEncodeAttr(0xc0, 7, []byte{0, 0, 0xfd, 0xe9, 10})
+		if fam != famV4 {
+			attrs = append(wEncodeAttr(0x80, 15, []byte{byte(fam.AFI >> 8), byte(fam.AFI), fam.SAFI}), attrs...)
+		}
+		body := append([]byte{0, 0, byte(len(attrs) >> 8), byte(len(attrs))}, attrs...)
+		if p.write(append(wHeader(wUpdate, len(body)), body...)) {
+			w.probe("empty_update_with_discarded_attribute")
 		}
 		grSettle()
 	case "eor":
